@@ -91,6 +91,13 @@ def run_case(agg, tmpdir, header, records, delim, has_header, how):
                 f.write(text)
             if how == "path":
                 t = read_csv(p, delimiter=delim, has_header=has_header)
+            elif how == "file-after-preamble":
+                # a handle the caller has already read a line from: parsing starts where the handle stands
+                with open(p, "w", encoding="utf-8", newline="") as f:
+                    f.write("# not,part,of\n" + text)
+                with open(p, "r", encoding="utf-8", newline="") as f:
+                    f.readline()
+                    t = read_csv(f, delimiter=delim, has_header=has_header)
             else:
                 with open(p, "r", encoding="utf-8", newline="") as f:
                     t = read_csv(f, delimiter=delim, has_header=has_header)
@@ -180,7 +187,7 @@ def run_unit(unit):
                         agg.nontrivial += 1
                     for delim in DELIMS:
                         for hh in (True, False):
-                            for how in ("stringio", "path", "file"):
+                            for how in ("stringio", "path", "file", "file-after-preamble"):
                                 if how != "stringio" and (delim != "," or nrec == 2 and len(cells) > 12 and records[0] != records[-1]):
                                     continue
                                 run_case(agg, tmpdir, header, records, delim, hh, how)
